@@ -90,6 +90,9 @@ func (p *Prog) stopRoleOf(ch ssa.Value) string {
 	role := symChanRole(s)
 	if role == "stop:ctx" && len(s.Args) == 1 {
 		a := s.Args[0]
+		if a.Op == "param" {
+			a = p.upParam(a, 0) // the context handed on to a helper is the caller's context
+		}
 		if _, path, ok := a.FieldPath(); ok {
 			return "stop:ctx(" + strings.Join(path, ".") + ")"
 		}
@@ -306,4 +309,13 @@ func (p *Prog) helperBounded(d *Disc, child *GoEntry) (ok bool, detail string) {
 		}
 	}
 	return true, "the spawning entry's deferred Stop() of the same sub-discipline runs before its wg.Wait(): the helper's pending stop call returns once that discipline has completed (run order: " + p.describeDefers(order) + ")"
+}
+
+// routineBlocks: the blocks of every function the goroutine runs (entry and helpers it calls).
+func (rt *Routine) routineBlocks() []*ssa.BasicBlock {
+	var out []*ssa.BasicBlock
+	for _, fn := range rt.Funcs {
+		out = append(out, fn.Blocks...)
+	}
+	return out
 }
